@@ -628,6 +628,13 @@ func genC10(g *G) {
 			emitEnc(ver, o, "large")
 		}
 	}
+	// --- many aggregates, few definitions (a pooled or shared scratch slice sized by the number of streams shows
+	// when several of these are encoded at the same time: they are in the sample of the concurrent phase)
+	for k := 0; k < g.N(6, 40); k++ {
+		ver := k % 2
+		o := cdcRndOutcomeJ(g, ver, 2, 2, 256+g.R.Intn(500), false)
+		emitEnc(ver, o, "many-aggregates")
+	}
 	// --- message-level decode: valid message, then mutations of it
 	nm := g.N(150, 2000)
 	for i := 0; i < nm; i++ {
